@@ -193,3 +193,7 @@ package domain
 //@ requires_held indexPersist.prepare idx.mu R
 //@ unshared Open the index is built before it is reachable from any other goroutine
 //@ lock_alias .indexPersist.idx
+//@ guarded_by fileController.writers.open writers
+//@ guarded_by fileController.writers.unopened writers
+//@ guarded_by fileController.readers.files readers
+//@ guarded_by fileReaders.open .
